@@ -237,7 +237,7 @@ def _rtsubs(kinds, qcases, tcases):
 PROPS['C01'].subs += _rtsubs('lockrec,lockrec,trylockrec', 60, 150)
 PROPS['C01'].subs += [Sub('rt_trypoll_' + c, 'rt_' + c, shards=(1, 1), cases=(8, 40), maxsize=(100, 100), kind='stress', env={'VERIF_KINDS': 'trypoll', 'VERIF_CONFIG_TSAN': 0}, timeout=(900, 3600)) for c in ('plain_c11', 'plain_sim')]
 PROPS['C01'].subs += [Sub('rt_longhold_' + c, 'rt_' + c, shards=(1, 1), cases=(3, 6), maxsize=(100, 100), kind='stress', env={'VERIF_KINDS': 'longhold', 'VERIF_CONFIG_TSAN': 0, 'VERIF_HOLD_MS': (3200, 9000)}, timeout=(900, 3600)) for c in ('plain_c11', 'plain_sync')]
-PROPS['C04'].subs += _rtsubs('ticket,ticket,countdown,zerorace,zerorace,casloop,mix,mp,sb,setinc', 30, 100)
+PROPS['C04'].subs += _rtsubs('ticket,ticket,countdown,zerorace,zerorace,casloop,mix,mp,sb,setinc,reinit_ticket,reinit_mix', 36, 110)
 PROPS['C01'].rule += ' Real-thread sub-checks: generated (threads 2-8, rounds, lock kind, noise seed) lock programs on real threads, under ThreadSanitizer for the c11 and sim models (any race report on the protected record is a violation - this is the visibility clause) and with outcome oracles only on plain -O2 builds of c11, sync, sim. Polling sub-check (plain -O2 builds): a bare `while (!trylock (l)) ++n;` loop and two trylocks in a row, compiled against the headers of the tree under test (function attributes in the headers decide what the compiler of the calling code may merge or hoist): the loop ends after the release by the holder and never before. Long-hold sub-check (c11 and sync spinlock builds): a holder keeps the mutex / spinlock for 3.5 s (thorough 9 s) while a second thread sits in the blocking lock call; the call may return only after the release (hundreds of millions of failed acquisition attempts in one call).'
 PROPS['C04'].rule += ' Real-thread sub-checks: ticket uniqueness (add), countdown (dec_and_test TRUE exactly once), zero-race rounds (all threads decrement a word set to the thread count, tightly synchronised, exactly one TRUE per round), CAS increment loop, or/xor/and/inc mixes, message-passing and store-buffering litmus with iteration counts; TSan on c11/sim, outcome oracles on plain c11/sync/sim.'
 PROPS['C01'].assumptions.append('ThreadSanitizer is not applied to the sync model (plain volatile store + full fence is outside its happens-before vocabulary and reports on the unchanged tree); on x86-64 a missing release fence in sync has no observable outcome')
@@ -409,7 +409,7 @@ _ADD = {
  'C19': ' The sleep lower bound is exact (elapsed time is measured around the call); the ipc_new scenario also opens the now existing segment under the same interruptions and requires the uninterrupted outcome (size, bytes, names survive a non-owner free).',
 }
 _ADD6 = {
- 'C04': ' Set-versus-increment litmus (real threads, int and pointer width): one thread sets the word to fresh bases and reads it back while another increments it and publishes its count; base <= value <= base + increments that can lie between (exact, no timing).',
+ 'C04': ' Kinds reinit_*: the same programs in a second lifetime of the library (p_libsys_shutdown + p_libsys_init first). Set-versus-increment litmus (real threads, int and pointer width): one thread sets the word to fresh bases and reads it back while another increments it and publishes its count; base <= value <= base + increments that can lie between (exact, no timing).',
  'C03': ' Signal-burst sub-check (real threads): the consumer sleeps in wait, the producer issues B signals (or broadcasts) under one lock hold, B in {1, 2, 255, 256, 257, 1000, 65535, 65536, 65537, 131072, 196608}; verdict by state: the consumer still sleeps in a futex wait (two looks one second apart) with its predicate true.',
  'C02': ' Reader-behind-waiting-writer sub-check (real threads): reader A holds, writer W sleeps inside writer_lock, reader B calls reader_lock - verdict by state: B sleeps in a futex wait (two looks one second apart) while only A holds the lock.',
  'C01': ' Long-hold litmus: every case holds the spinlock (until the waiter burnt the hold time in CPU) and then the mutex (whole hold time on the wall clock, the waiter asleep in its lock call).',
